@@ -387,7 +387,7 @@ func (u *UnitGen) execUnOp(fr *Frame, st *State, in *ssa.UnOp) {
 		// loaded values are well-typed
 		if a.local == "" {
 			// heap cells hold well-typed values on every path
-			u.assumeRaw(u.typeFacts(st, v, in.Type()))
+			u.assumeStructural(u.typeFacts(st, v, in.Type()))
 		}
 		if _, ok := in.Type().Underlying().(*types.Signature); ok {
 			if cl, ok := u.closureAt[addrKey(a)]; ok {
@@ -604,7 +604,9 @@ func (u *UnitGen) execSlice(fr *Frame, st *State, in *ssa.Slice) {
 
 func (u *UnitGen) mapDom(st *State, mt types.Type, m Term) Term {
 	dk, _, ds, _ := u.mapKeys(mt)
-	return Select(u.get(st, dk, ds), m)
+	arr := u.get(st, dk, ds)
+	u.logLoad(dk, arr)
+	return Select(arr, m)
 }
 
 func (u *UnitGen) mapVals(st *State, mt types.Type, m Term) Term {
